@@ -30,6 +30,10 @@ def run(chk: Check):
         got = wfcheck.lib_eval(I, "fb")
         wfcheck.compare(chk, I, ex, got, "fb", wfcheck.TOL64, "forcebias", tag="/library")
         chk.traces += 1
+        J = wfcheck.previous_like(insts, I)
+        if J is not None:       # the same evaluation on dictionaries that were prepared for another problem before
+            wfcheck.compare(chk, I, ex, wfcheck.lib_eval(I, "fb", reprepare_from=J), "fb", wfcheck.TOL64, "forcebias-reprepared", tag="/library")
+            chk.traces += 1
         chk.sample({"kind": I["kind"], "norb": I["norb"], "nelec": [I["nu"], I["nd"]], "chol": I["json"]["chol"],
                     "walker0": I["json"]["walkers"][0],
                     "exact_fb0": None if ex[0]["zero"] else [[z.real, z.imag] for z in ex[0]["fb"]]}, limit=4)
